@@ -141,7 +141,14 @@ impl<'a> Splitter<'a> {
             let mut b = (a + len).min(nodes.len());
             // an .includepath/.include pair made by an earlier cut stays in the file it was made for
             // (whether a search path added inside an included file is seen by the includer is not specified)
-            let is_inc = |n: &Node| matches!(n, Node::Include { .. } | Node::IncludePath(_));
+            fn holds_include(n: &Node) -> bool {
+                match n {
+                    Node::Include { .. } | Node::IncludePath(_) => true,
+                    Node::Cond { arms, else_body } => arms.iter().any(|a| a.body.iter().any(holds_include)) || else_body.as_ref().map(|b| b.iter().any(holds_include)).unwrap_or(false),
+                    _ => false,
+                }
+            }
+            let is_inc = |n: &Node| holds_include(n);
             if is_inc(&nodes[a]) {
                 continue;
             }
@@ -193,7 +200,15 @@ impl<'a> Splitter<'a> {
             }
             self.files[idx].nodes = final_nodes;
             let mut ins = pre;
-            ins.push(Node::Include { path: written, file: idx });
+            // sometimes the .include line sits inside a conditional: in the taken branch it must be read, and an
+            // untaken branch may name a file that exists nowhere
+            let inc = Node::Include { path: written, file: idx };
+            let inc = match self.rng.below(6) {
+                0 => Node::Cond { arms: vec![Arm { cond: Cond::Expr(E::Lit(1, 0)), body: vec![inc] }], else_body: Some(vec![Node::Raw(".include \"file/that/exists/nowhere.inc\"".into())]) },
+                1 => Node::Cond { arms: vec![Arm { cond: Cond::Expr(E::Lit(0, 0)), body: vec![Node::Raw(".include \"another/missing/file.inc\"".into()), Node::Raw("garbage !".into())] }], else_body: Some(vec![inc]) },
+                _ => inc,
+            };
+            ins.push(inc);
             for (k, n) in ins.into_iter().enumerate() {
                 nodes.insert(a + k, n);
             }
@@ -258,14 +273,35 @@ fn write_tree(t: &Tree, skip: Option<usize>) -> std::io::Result<()> {
 }
 
 fn flatten(t: &Tree, idx: usize, out: &mut Vec<Node>) {
-    for n in &t.files[idx].nodes {
+    flatten_nodes(t, &t.files[idx].nodes, out);
+}
+
+/// returns false when an `.exit` ended the file
+fn flatten_nodes(t: &Tree, nodes: &[Node], out: &mut Vec<Node>) -> bool {
+    for n in nodes {
         match n {
             Node::Include { file, .. } => flatten(t, *file, out),
             Node::IncludePath(_) => {}
-            Node::Exit => return,
+            Node::Exit => return false,
+            Node::Cond { arms, else_body } => {
+                // includes inside branches are pasted inside the same branches
+                let mut new_arms = vec![];
+                for a in arms {
+                    let mut b = vec![];
+                    flatten_nodes(t, &a.body, &mut b);
+                    new_arms.push(Arm { cond: a.cond.clone(), body: b });
+                }
+                let eb = else_body.as_ref().map(|b| {
+                    let mut v = vec![];
+                    flatten_nodes(t, b, &mut v);
+                    v
+                });
+                out.push(Node::Cond { arms: new_arms, else_body: eb });
+            }
             other => out.push(other.clone()),
         }
     }
+    true
 }
 
 fn strip_line_numbers(msgs: &[String]) -> Vec<String> {
@@ -374,13 +410,25 @@ fn check(ctx: &Ctx, rng: &mut Rng, case_id: u64, root_base: &Path) {
 }
 
 fn max_depth(t: &Tree, idx: usize) -> u32 {
-    let mut d = 0;
-    for n in &t.files[idx].nodes {
-        if let Node::Include { file, .. } = n {
-            d = d.max(1 + max_depth(t, *file));
+    fn walk(t: &Tree, nodes: &[Node]) -> u32 {
+        let mut d = 0;
+        for n in nodes {
+            match n {
+                Node::Include { file, .. } => d = d.max(1 + max_depth(t, *file)),
+                Node::Cond { arms, else_body } => {
+                    for a in arms {
+                        d = d.max(walk(t, &a.body));
+                    }
+                    if let Some(b) = else_body {
+                        d = d.max(walk(t, b));
+                    }
+                }
+                _ => {}
+            }
         }
+        d
     }
-    d
+    walk(t, &t.files[idx].nodes)
 }
 
 pub fn run(ctx: &Ctx) -> i32 {
@@ -403,7 +451,7 @@ pub fn run(ctx: &Ctx) -> i32 {
     let _ = std::fs::remove_dir_all(&root_base);
     fw::finish(
         ctx,
-        "generated programs (device selection, .equ/label/alias definitions and uses incl. forward references, macros defined on either side and called before/after, complete conditional chains, messages, data/EEPROM segments) cut at item boundaries into trees of files up to 5 deep; each file placed by one rule: absolute path, includer's directory (also via sub/), caller-supplied directory, earlier absolute .includepath, earlier relative .includepath (also with ../); a quarter of the included files end in `.exit` followed by garbage and .error; per tree one reachable file is removed (must fail naming it); counters include-resolved:* = INCLUDE hook events by rule; distinct_nontrivial = distinct trees (seed, index)",
+        "generated programs (device selection, .equ/label/alias definitions and uses incl. forward references, macros defined on either side and called before/after, complete conditional chains, messages, data/EEPROM segments) cut at item boundaries into trees of files up to 5 deep; each file placed by one rule: absolute path, includer's directory (also via sub/), caller-supplied directory, earlier absolute .includepath, earlier relative .includepath (also with ../); a third of the .include lines sit inside a conditional (taken branch, or the .else of an untaken branch that names files existing nowhere); a quarter of the included files end in `.exit` followed by garbage and .error; per tree one reachable file is removed (must fail naming it); counters include-resolved:* = INCLUDE hook events by rule; distinct_nontrivial = distinct trees (seed, index)",
         &[
             "file names are unique per tree (precedence between equally named files is not specified)",
             "an .includepath issued inside an included file is only relied on for that file's own later includes",
